@@ -4,6 +4,7 @@ def b_Location_create_node : CR.SrcW.Builder where
   kind := .node
   tag := "location"
   xsd := "location"
+  path := []
   parent := ""
   attrs := []
   gattrs := []
@@ -28,7 +29,8 @@ def b_Location_create_node_gpsLongitude : CR.SrcW.Builder where
   key := "LocationXMLNode.create_node/gpsLongitude"
   kind := .node
   tag := "gpsLongitude"
-  xsd := ""
+  xsd := "location"
+  path := ["gpsLongitude"]
   parent := "LocationXMLNode.create_node"
   attrs := []
   gattrs := []
@@ -41,7 +43,8 @@ def b_Location_create_node_gpsLatitude : CR.SrcW.Builder where
   key := "LocationXMLNode.create_node/gpsLatitude"
   kind := .node
   tag := "gpsLatitude"
-  xsd := ""
+  xsd := "location"
+  path := ["gpsLatitude"]
   parent := "LocationXMLNode.create_node"
   attrs := []
   gattrs := []
@@ -54,7 +57,8 @@ def b_Location_create_node_geoNameId : CR.SrcW.Builder where
   key := "LocationXMLNode.create_node/geoNameId"
   kind := .node
   tag := "geoNameId"
-  xsd := ""
+  xsd := "location"
+  path := ["geoNameId"]
   parent := "LocationXMLNode.create_node"
   attrs := []
   gattrs := []
